@@ -1029,8 +1029,11 @@ brk("B47", "is_ipv6: raises=()",
 brk("B47b", "is_regex: raises=re.error only (pre-fix shape)",
     [(F, '''@_checks_drafts(
     name="regex",
-    raises=(re.error, OverflowError, RecursionError),
+    raises=(re.error, OverflowError, RecursionError, ValueError),
 )''', '''@_checks_drafts(name="regex", raises=re.error)''')], {"C13": "R13.1|"})
+
+brk("B47d", "is_regex: raises without ValueError (shape before the F-16 fix)",
+    [(F, '''    raises=(re.error, OverflowError, RecursionError, ValueError),''', '''    raises=(re.error, OverflowError, RecursionError),''')], {"C13": "R13.1|"})
 
 brk("B47c", "is_date: bare fromisoformat (pre-fix shape)",
     [(F, '''    if not _RFC3339_FULL_DATE.fullmatch(instance):
